@@ -7,6 +7,8 @@ import Sdmmc.Model.Crc
 import Sdmmc.Model.Csd
 import Sdmmc.Spec.Poly
 import Sdmmc.Spec.Fs
+import Sdmmc.Spec.Card
+import Sdmmc.Model.Sd
 
 namespace Sdmmc.Driver
 
@@ -20,6 +22,8 @@ structure DState where
   base : Disk := Disk.empty
   /-- geometry of the volume the specification verbs look at (from the formatter, not from the model) -/
   geom : Spec.Fs.Geom := default
+  /-- the SPI-mode card the harness runs the real driver against -/
+  card : Spec.Card.Card := default
   deriving Inhabited
 
 /-! ### Formatting -/
@@ -203,6 +207,90 @@ def handlePure : List String → Option String
     pure (showRes showVol (mountPure (← bytesOfHex mbr) (← idx.toNat?) fetch))
   | _ => none
 
+
+/-! ### SD driver model against a recorded bus; the card specification as a simulator -/
+
+/-- Run-length list: `tok*count` repeats a token. -/
+def expandRuns (s : String) : Option (List String) :=
+  if s = "-" then some [] else
+  (s.splitOn ",").foldlM (fun acc tok =>
+    match tok.splitOn "*" with
+    | [t] => some (acc ++ [t])
+    | [t, n] => n.toNat?.map fun k => acc ++ List.replicate k t
+    | _ => none) []
+
+/-- Collapse runs of identical tokens into `tok*count` (fuel = list length). -/
+def compressRunsAux : (fuel : Nat) → List String → List String
+  | 0, _ => []
+  | _, [] => []
+  | fuel + 1, x :: xs =>
+    let same := xs.takeWhile (· = x)
+    let rest := xs.dropWhile (· = x)
+    (if same.isEmpty then x else s!"{x}*{same.length + 1}") :: compressRunsAux fuel rest
+
+def compressRuns (l : List String) : List String := compressRunsAux l.length l
+
+/-- The recorded bus: what came back for each transaction (`none` = SPI error). -/
+def replayBus : Sd.BusOps (List (Option Bytes)) where
+  xfer := fun st out =>
+    match st with
+    | [] => ([], some (List.replicate out.length 0xFF))
+    | r :: rest => (rest, r.map fun bs => bs ++ List.replicate (out.length - bs.length) 0xFF)
+  delay := fun st => st
+
+def showSdErr : Sd.SdErr → String
+  | .Transport => "Transport" | .CantEnableCRC => "CantEnableCRC" | .TimeoutReadBuffer => "TimeoutReadBuffer"
+  | .TimeoutWaitNotBusy => "TimeoutWaitNotBusy" | .TimeoutCommand c => s!"TimeoutCommand.{c}"
+  | .TimeoutACommand c => s!"TimeoutACommand.{c}" | .Cmd58Error => "Cmd58Error" | .RegisterReadError => "RegisterReadError"
+  | .CrcError a b => s!"CrcError.{a}.{b}" | .ReadError => "ReadError" | .WriteError => "WriteError" | .BadState => "BadState"
+  | .CardNotFound => "CardNotFound" | .GpioError => "GpioError"
+
+def showCt : Option Sd.CardType → String
+  | none => "none" | some .SD1 => "SD1" | some .SD2 => "SD2" | some .SDHC => "SDHC"
+
+def parseCt : String → Option (Option Sd.CardType)
+  | "none" => some none | "SD1" => some (some .SD1) | "SD2" => some (some .SD2) | "SDHC" => some (some .SDHC) | _ => none
+
+def chunks512 : (fuel : Nat) → Bytes → List Bytes
+  | 0, _ => []
+  | fuel + 1, bs => if bs.isEmpty then [] else bs.take 512 :: chunks512 fuel (bs.drop 512)
+
+def parseSdCall : List String → Option Sd.Call
+  | ["read", n, idx] => do pure (.read (← n.toNat?) (← idx.toNat?))
+  | ["write", idx, h] => do
+    let bs ← bytesOfHex h
+    pure (.write (chunks512 (bs.length + 1) bs) (← idx.toNat?))
+  | ["num_blocks"] => some .numBlocks
+  | ["num_bytes"] => some .numBytes
+  | ["card_type"] => some .cardType
+  | ["mark_uninit"] => some .markUninit
+  | _ => none
+
+def showAnswer : Sd.Answer → String
+  | .blocks bs => "ok blocks " ++ hexOrDash bs.flatten
+  | .unit => "ok"
+  | .num n => s!"ok n {n}"
+  | .ctype c => s!"ok t {showCt c}"
+
+def handleSd (useCrc retries ct : String) (rest : List String) : Option String := do
+  -- rest = call tokens ... "|" responses
+  let callToks := rest.takeWhile (· ≠ "|")
+  let respTok := (rest.dropWhile (· ≠ "|")).drop 1
+  let call ← parseSdCall callToks
+  let resp ← expandRuns (respTok.headD "-")
+  let bus : List (Option Bytes) ← resp.mapM fun t => if t = "!" then some none else (bytesOfHex t).map some
+  let st0 : Sd.St (List (Option Bytes)) := { bus, cardType := ← parseCt ct, useCrc := useCrc = "1", acquireRetries := ← retries.toNat? }
+  let (r, st) := Sd.call replayBus call st0
+  let res := match r with
+    | .ok a => showAnswer a
+    | .err e => "err " ++ showSdErr e
+    | .panic _ => "panic"
+  let mosi := compressRuns (st.events.reverse.map fun e => hexOfBytes e.bytes)
+  pure s!"{res} | {",".intercalate mosi} | {st.delays} | {showCt st.cardType} | {st.bus.length}"
+
+def parseKind : String → Option Spec.Card.Kind
+  | "SD1" => some .SD1 | "SD2" => some .SD2 | "SDHC" => some .SDHC | _ => none
+
 def handle (st : DState) (line : String) : DState × String :=
   let toks := (line.trimAscii.toString.splitOn " ").filter (· ≠ "")
   match toks with
@@ -319,6 +407,31 @@ def handle (st : DState) (line : String) : DState × String :=
         | .ok (ss, cs) =>
           let live := Spec.Fs.liveSlots ss
           (st, s!"ok chain={",".intercalate (cs.map toString)} live=" ++ ";".intercalate (live.map fun s => s!"{s.blk}:{s.off}:{hexOfBytes s.bytes}"))
+  | ["card", "new", kind, csd, ncr, nac, busy, ip] =>
+    match parseKind kind, bytesOfHex csd, [ncr, nac, busy, ip].mapM String.toNat? with
+    | some k, some c, some [ncr, nac, busy, ip] => ({ st with card := Spec.Card.mk k c ncr nac busy ip }, "ok")
+    | _, _, _ => (st, "bad-op")
+  | ["card", "blk", n, h] =>
+    match n.toNat?, bytesOfHex h with
+    | some n, some b => ({ st with card := { st.card with mem := st.card.mem.insert n b } }, "ok")
+    | _, _ => (st, "bad-op")
+  | ["card", "x", h] =>
+    match bytesOfHex h with
+    | some bs =>
+      let (c, ys) := Spec.Card.run st.card bs
+      ({ st with card := c }, hexOrDash ys)
+    | none => (st, "bad-op")
+  | ["card", "get", n] =>
+    match n.toNat? with
+    | some n => (st, hexOfBytes (Spec.Card.getBlock st.card n))
+    | none => (st, "bad-op")
+  | ["card", "viol"] => (st, if st.card.violations.isEmpty then "-" else "|".intercalate st.card.violations.reverse)
+  | ["card", "state"] =>
+    (st, s!"idle={st.card.idle} init={st.card.initialised} crc={st.card.crcOn} cmds={st.card.commands} cap={st.card.capacity} streaming={st.card.streaming.isSome} busy={st.card.busyLeft}")
+  | "sd" :: useCrc :: retries :: ct :: rest =>
+    match handleSd useCrc retries ct rest with
+    | some r => (st, r)
+    | none => (st, "bad-op")
   | _ =>
     match handlePure toks with
     | some r => (st, r)
